@@ -113,6 +113,26 @@ CLAIMS = {
     ),
 }
 
+# session 4 (DESIGN.md section 12): clauses added to the claims, and - where a verdict can rest on it - the finite-table evaluation
+ADDITIONS = {
+    "C01": (" Added in session 4: names given after modules_that() / an object-introducing word reach the first ModuleRequirement on the right side (T5 names flow); the set exempt from 'something else' is exactly the subject's and the objects' sub trees (ancestors of the subject added to it are a violation); every node of the subject's own sub tree is expanded by the forward search even if an excepted module contains it (found defect D21, repaired in /repo).", ""),
+    "C02": (" Added in session 4: the constructor and the converter are additionally decided on constants (14 sample imports x 4 level limits on a model of networkx.DiGraph; 8 constant import statements) - a mismatch is a violation with the counterexample, and where the symbolic rule has no verdict this bounded decision stands in for it (DESIGN 12.5).", " + finite-table evaluation of the constructor / converter by the checker's own evaluator on constant inputs (bounded; DESIGN 12.5)"),
+    "C04": (" Added in session 4: an os.walk based scan is decided on a model of os.walk (pruning must mutate the list in place, never while iterating it; followlinks); a character test on the imported name may not decide the importee; where the symbolic reading of the graph construction has no verdict, NetworkxGraph.__init__ is tabulated on 23 model inputs (bounded decision, obligation text says 'on the model'; DESIGN 12.5).", " + finite-table evaluation of NetworkxGraph.__init__ on 23 model inputs where the symbolic rule cannot read the construction (bounded; DESIGN 12.5)"),
+    "C05": (" Added in session 4: nothing outside the LayeredArchitecture family mutates a per-layer list or the layer table in place (C05.R1.READONLY); the layer lookup is also unrolled with the raw-sorted list bound to adversarial siblings ('aa', 'aa-b', 'aa.bb': order-based skipping needs component-wise order).", ""),
+    "C06": (" Added in session 4: parse is history-free (C06.R6: every location that outlives a call of parse and is written with input-dependent content is re-initialised on every path before it is read); an alias given in a later declaration survives an earlier alias-free mention of the same name however declarations are collected (R5 generalised); the two tag searches are related on the path to a result.", ""),
+    "C07": (" Added in session 4: an evaluation equals a fresh pipeline with the configuration in force at that evaluation (re-configuration protocols with_base_module / from_file between two evaluations); when the applier collects e.args[0], every AssertionError raised on the verdict path of Rule.assert_applies carries its complete message as its only argument.", ""),
+    "C08": (" Added in session 4: scans written as generators of records / os.walk loops are decided (exclusion guards of the yields are the guards of the consumer; in-place pruning or emptying of the sub-directory list); regular expressions given together with the default glob exclusions are either rejected or reach the scan.", ""),
+    "C09": (" Added in session 4: the constructor is also evaluated on 41 model modules / 15 model imports under limits None, 1, 2, 3 with a model of networkx.DiGraph (C09.R6: the limited graph is the truncation of the full one, no self edges; two constructions with different limits on shared state each build their own graph); R6 explains violations with a concrete record and is the discharge of last resort for ledger-style constructions the flow rule cannot read (bounded; DESIGN 12.5).", " + finite-table evaluation of the constructor on model inputs (C09.R6; bounded; DESIGN 12.5)"),
+    "C10": (" Added in session 4: with externals included, whether an import is retained depends only on pattern facts about the importee and its ancestors, whatever was filtered before (C10.R5 'an import is judged on its own': truth table over EXCL atoms in two processing orders; memo soundness decided semantically); no scan function mutates in place a value aliasing the result of a memoised function; excluded externals are not appended to the module list.", ""),
+    "C11": (" Added in session 4: the filters built by have_name_containing are stored like those of have_name_matching (R3); the no-match error of the conversion reaches the caller of Rule.assert_applies unswallowed (R5); a search may not change in place the whole collection it is given when that collection is shared by the keys of a batch (R4).", ""),
+    "C12": (" Added in session 4: a rule and its dual, and 'should only' and the 'should' it decomposes into, ask their shared question with the same arguments as functions of (importers, importees) - constant options of one callee are compared by interpreting the callee under both option sets.", ""),
+    "C13": (" Added in session 4: two independent tag searches whose slice is used are related on the path to a verdict; a bounded search never receives an end-relative negative bound; `with` over a repository context manager whose __exit__ can suppress (or contextlib.suppress) is a handler like `except`; option-conflict tables evaluated with next()/filter are read as decision tables; raising lookups are followed through helper objects and lookup tables with a raising fallback.", ""),
+    "C14": (" Added in session 4: F-NAME.ORDER - a loop over module names sorted as plain strings must not stop, jump or forget names on a path where the current name is unrelated ('a' < 'a-b' < 'a.b': sub trees are contiguous only under a component-wise sort key); cuts whose relation rests on graph edges instead of the two names are unsafe; path-sensitive values of find / rfind indices; replace(p, x, 1) only under an established prefix relation.", ""),
+    "C15": (" Added in session 4: producer / consumer protocols (chained generators of request records, ledgers materialised at the end) are fused into plain loops before the nodes-before-edges argument; instance memo tables and per-instance cache decorators are accepted only as unobservable memos (complete immutable key, value pure over construction-time state, copied or immutable on read).", ""),
+    "C16": (" Added in session 4: when the duplicate check consults a builder attribute instead of the layer mapping, every write to the mapping is accompanied on every returning path by additions covering the identifiers written; a truth-value test of the architecture attribute is a test for None only while no __bool__ / __len__ is defined; helper objects that own the table and the guards, partial-bound callbacks and methodcaller steps are followed.", ""),
+    "C17": (" Added in session 4: a label derived from the parent's label needs an order proof for the pass (sorted names, on-demand recursion; insertion order of graph nodes gives none); a carried 'enclosing alias' needs a pre-order (component-wise sort); the modules that receive an alias are selected by a predicate on the two names, never by graph reachability alone.", ""),
+}
+
 NOT_BUILT_REASON = "static check not built yet in this session (planned rules: DESIGN.md section 4); no claim is made"
 
 
@@ -124,6 +144,9 @@ def main() -> None:
         pid = p["id"]
         if pid in CLAIMS and (rules_dir / f"{pid.lower()}.py").exists():
             text, technique, note, ref = CLAIMS[pid]
+            extra_text, extra_tech = ADDITIONS.get(pid, ("", ""))
+            text, technique = text + extra_text, technique + extra_tech
+            ref = ref.replace("and section 11 (how they are decided since the re-engineering)", "section 11 (how they are decided since the re-engineering) and section 12 (session 4: new rules, modelled idioms, finite-table evaluations)")
             checks.append(
                 {
                     "property_id": pid,
@@ -164,7 +187,7 @@ def main() -> None:
         "checks": checks,
         "notes": "All checks are static: they read /repo/src on every run, never execute pytestarch and never run its tests. "
         "Exit 0 = all obligations discharged, 1 = VIOLATION (construct named), 2 = ANALYSIS-ERROR (fail-closed). "
-        "18 genuine defects were repaired in /repo as fix: commits (known_findings.txt).",
+        "21 genuine defects (D1-D21) were repaired in /repo as fix: commits (known_findings.txt holds only fixed: lines).",
         "not_applicable": na,
     }
     (VERIF / "MANIFEST.json").write_text(json.dumps(manifest, indent=1) + "\n")
